@@ -5,7 +5,7 @@
    correspondence run judges the interpreter built from /repo against both on
    every generated expression. *)
 From Coq Require Import ZArith Bool List.
-From Otto Require Import Common.Double C05.Fp C05.Spec C05.Model C05.Eval C05.Proofs C05.Corr.
+From Otto Require Import Common.Double C05.Fp C05.Spec C05.Model C05.Eval C05.Proofs C05.ProofsStr C05.Corr.
 Import ListNotations.
 Open Scope Z_scope.
 
@@ -88,6 +88,20 @@ Theorem C05_relational : forall d op x y st, model_relop d op x y st = spec_relo
 Proof. exact model_relop_is_spec. Qed.
 Print Assumptions C05_relational.
 
+(* 11.8.5 step 4, the string case: Go's < on UTF-8 bytes is the code-point order of
+   the decoded strings, for all strings of UTF-16 units ... *)
+Theorem C05_string_order_is_codepoint_order : forall a b, Forall unit_ok a -> Forall unit_ok b ->
+  m_str_lt a b = units_lt (code_points a) (code_points b).
+Proof. exact str_lt_is_codepoint_order. Qed.
+Print Assumptions C05_string_order_is_codepoint_order.
+
+(* ... hence the ES5 code-unit order on all strings without a high surrogate
+   (C05_strcmp_refuted: a surrogate pair against U+E000..U+FFFF breaks it) *)
+Theorem C05_relational_strings : forall a b, Forall no_high a -> Forall no_high b ->
+  m_str_lt a b = units_lt a b.
+Proof. exact str_lt_bmp. Qed.
+Print Assumptions C05_relational_strings.
+
 (* 11.5.2: evaluateDivide's cascade of special cases is IEEE-754 division on all pairs of doubles *)
 Theorem C05_divide_is_ieee : forall l r, 0 <= l < 2 ^ 64 -> 0 <= r < 2 ^ 64 -> m_divide l r = fdiv l r.
 Proof. exact m_divide_is_fdiv. Qed.
@@ -167,6 +181,9 @@ Example C05_plus_operand_order_met :
   value_pure pure_obj /\
   to_primitive 0 pure_obj {| vars := [VP PNull]; log := [] |} = (Ok (PStr [120]), {| vars := [VP PNull]; log := [3; 2] |}).
 Proof. vm_compute. repeat split; reflexivity. Qed.
+Example C05_strings_met :
+  Forall no_high [0x61; 0xFFFF; 0xE9] /\ Forall unit_ok [0xD800; 0xDC00] /\ code_points [0xD800; 0xDC00] = [0x10000].
+Proof. repeat split; try (repeat constructor; vm_compute; intuition discriminate). Qed.
 Example C05_spec_samples :
   string_to_number [32; 48; 120; 49; 70; 10] = NLVal 0x403F000000000000 /\          (* " 0x1F\n" -> 31 *)
   number_to_string 0x3FB999999999999A = Some [48; 46; 49] /\                        (* 0.1 *)
